@@ -138,6 +138,15 @@ func (file *lFile) AbandonReadBuffer() error {
 	return nil
 }
 
+// flushWriter writes out the data pending in a buffered writer (setvbuf "full"/"line"), so that
+// reads, seeks and a change of the buffering mode see every earlier write.
+func (file *lFile) flushWriter() error {
+	if bwriter, ok := file.writer.(*bufio.Writer); ok {
+		return bwriter.Flush()
+	}
+	return nil
+}
+
 func fileDefOut(L *LState) *LUserData {
 	return L.Get(UpvalueIndex(1)).(*LTable).RawGetInt(fileDefOutIndex).(*LUserData)
 }
@@ -336,6 +345,9 @@ func fileReadAux(L *LState, file *lFile, idx int) int {
 	}
 	var err error
 	top := L.GetTop()
+	if err = file.flushWriter(); err != nil {
+		goto errreturn
+	}
 	for i := idx; i <= top; i++ {
 		switch lv := L.Get(i).(type) {
 		case LNumber:
@@ -437,6 +449,10 @@ func fileSeek(L *LState) int {
 	var pos int64
 	var err error
 
+	err = file.flushWriter()
+	if err != nil {
+		goto errreturn
+	}
 	err = file.AbandonReadBuffer()
 	if err != nil {
 		goto errreturn
@@ -475,6 +491,7 @@ func fileLinesIter(L *LState) int {
 	} else {
 		file = L.Get(UpvalueIndex(2)).(*LUserData).Value.(*lFile)
 	}
+	file.flushWriter()
 	buf, _, err := file.reader.ReadLine()
 	if err != nil {
 		if err == io.EOF {
@@ -501,7 +518,7 @@ func fileRead(L *LState) int {
 	return fileReadAux(L, checkFile(L), 2)
 }
 
-var filebufOptions = []string{"no", "full"}
+var filebufOptions = []string{"no", "full", "line"}
 
 func fileSetVBuf(L *LState) int {
 	var err error
@@ -509,6 +526,9 @@ func fileSetVBuf(L *LState) int {
 	file := checkFile(L)
 	if n := fileIsWritable(L, file); n != 0 {
 		return n
+	}
+	if err = file.flushWriter(); err != nil {
+		goto errreturn
 	}
 	switch filebufOptions[L.CheckOption(2, filebufOptions)] {
 	case "no":
@@ -588,6 +608,7 @@ func ioLinesIter(L *LState) int {
 		file = L.Get(UpvalueIndex(2)).(*LUserData).Value.(*lFile)
 		toclose = true
 	}
+	file.flushWriter()
 	buf, _, err := file.reader.ReadLine()
 	if err != nil {
 		if err == io.EOF {
